@@ -13,7 +13,7 @@ import numpy
 from hypothesis import strategies as st
 
 from .. import arr as A
-from ..core import Failure, drive
+from ..core import sstr, Failure, drive
 
 ID = "C17"
 LEVEL = "exploration"
@@ -123,7 +123,7 @@ def _check_read(case, rec, tmp):
         rec.nontrivial_case(case)
         if status != "err" or type(res).__name__ != "InvalidDataFile":
             return [Failure("read|missing_header|got:%s" % (type(res).__name__ if status == "err" else "ok"), repr(res)[:200])]
-        msg = str(res)
+        msg = sstr(res)
         if field not in msg or path not in msg:
             fails.append(Failure("read|missing_header|message", "message %r names neither header %r nor path" % (msg, field)))
         return fails
@@ -133,12 +133,12 @@ def _check_read(case, rec, tmp):
         rec.nontrivial_case(case)
         if status != "err" or type(res).__name__ != "InvalidDataFile":
             return [Failure("read|non_numeric|got:%s" % (type(res).__name__ if status == "err" else "ok"), repr(res)[:200])]
-        m = re.search(r"line (\d+)", str(res))
+        m = re.search(r"line (\d+)", sstr(res))
         if not m or int(m.group(1)) != line_of_row[row]:
-            fails.append(Failure("read|non_numeric|line", "message %r, the bad cell is on physical line %d" % (str(res), line_of_row[row])))
+            fails.append(Failure("read|non_numeric|line", "message %r, the bad cell is on physical line %d" % (sstr(res), line_of_row[row])))
         return fails
     if status == "err":
-        return [Failure("%s|raises:%s" % (sig, A.exc_name(res)), str(res)[:300])]
+        return [Failure("%s|raises:%s" % (sig, A.exc_name(res)), sstr(res)[:300])]
     np_dtype = numpy.int64 if dtype == "Integer" else numpy.float64
     want = [np_dtype(float(t)) for t in col["cells"]]
     if not isinstance(res, numpy.ndarray) or res.shape != (len(want),):
@@ -186,7 +186,7 @@ def check_write(case, rec):
         try:
             cmd.result
         except Exception as exc:
-            return [Failure("%s|raises:%s" % (sig, A.exc_name(exc)), str(exc)[:300])]
+            return [Failure("%s|raises:%s" % (sig, A.exc_name(exc)), sstr(exc)[:300])]
         with open(path, newline="", encoding="utf-8") as f:
             rows = list(csv.reader(f))
         fails = []
@@ -222,7 +222,7 @@ def check_write(case, rec):
                 status, res = run_read(path, c["name"], "Float", None)
                 rec.label("reread")
                 if status == "err":
-                    fails.append(Failure(sig + "|reread_raises:%s" % A.exc_name(res), str(res)[:200]))
+                    fails.append(Failure(sig + "|reread_raises:%s" % A.exc_name(res), sstr(res)[:200]))
                     break
                 want = numpy.array(c["spec"]["data"], dtype=float)
                 got = numpy.ma.getdata(res).astype(float)
